@@ -24,6 +24,7 @@ pub fn oracle(sc: &Scenario, obs: &mut Obs) -> CaseResult {
     obs.class_if(s.losses_inside_recovery > 0, "loss-inside-recovery-period");
     obs.class_if(s.recovery_periods > 1, "recovery-periods>1");
     obs.class_if(s.over_window_sends > 0, "over-window-send-with-allowance");
+    obs.class_if(s.ce_signals > 0, "ecn-ce-reported");
     obs.class_if(matches!(sc.server.cc, crate::scenario::Cc::Bbr) || sc.clients.iter().any(|c| matches!(c.endpoint.cc, crate::scenario::Cc::Bbr)), "bbr");
     obs.nontrivial(s.congestion_limited_seen && s.losses > 0);
     obs.sample = Some(serde_json::json!({
